@@ -11,7 +11,10 @@ WholeTargets == {r \in Regs(L) : /\ Reg(L, r).comp = "" /\ ~Reg(L, r).hidden /\ 
                                  /\ (Reg(L, r).kind = "group" \/ Flds(L, r) = {})}
 WriteMenu == UNION {{[cls |-> Role(t[1], t[2]), ws |-> <<[r |-> t[1], f |-> t[2], v |-> V, aw |-> 0]>>] : V \in Menu(Fld(L, t[1], t[2]).width)} : t \in FieldTargets}
              \cup UNION {{[cls |-> Role(r, 0), ws |-> <<[r |-> r, f |-> 0, v |-> V, aw |-> 0]>>] : V \in Menu(W(L, r))} : r \in WholeTargets}
-DoSetValues == \E m \in WriteMenu : SetValues(m.ws)
+\* groups with alternative widths: values of the narrower width
+AltMenu == UNION {UNION {{[cls |-> "group", ws |-> <<[r |-> g, f |-> 0, v |-> V, aw |-> Reg(L, g).altw[k]]>>] : V \in Menu(Reg(L, g).altw[k])}
+                         : k \in DOMAIN Reg(L, g).altw} : g \in {x \in Groups(L) : ~Reg(L, x).hidden}}
+DoSetValues == \E m \in WriteMenu \cup AltMenu : SetValues(m.ws)
 DoExport == \E s \in {FALSE} \cup (IF L.seal # <<>> THEN {TRUE} ELSE {}) : Export(s)
 Next == NewObject \/ Template \/ GetConfig \/ LoadConfig \/ DoSetValues \/ DoExport \/ Parse
 \* bounded by an explicit step counter (TLCGet("level") in a constraint makes the state count depend on the worker schedule)
@@ -30,7 +33,7 @@ Spec == MCInit /\ [][MCNext]_<<vars, steps>>
 
 \* ---------------------------------------------------------------- lemmas
 TypeOK == (\A r \in Leaves(L) : bits[r] \subseteq AllBits(W(L, r))) /\ LeafSet(L) = Leaves(L) /\ Computed(L) = {r \in Leaves(L) : Reg(L, r).comp # ""}
-LayoutOK == GroupsConsistent(L) /\ NoOverlap(L) /\ Resolvable(L) /\ EnumNamesUnique(L) /\ FieldNamesUnique(L) /\ FieldsCover(L)
+LayoutOK == GroupsConsistent(L) /\ NoOverlap(L) /\ Resolvable(L) /\ FieldNamesUnique(L) /\ FieldsCover(L)
 \* "computed fields hold in every exported binary"
 ExportedComputedHold == bin.ok => ComputedHold(L, bin.b)
 \* the size bit-field of every object holds the size of its binary
@@ -44,7 +47,14 @@ SealedExportSealed == (act.a = "Export" /\ act.seal) => SealHolds(L, bin.b)
 \* a new object starts from the presets whatever happened before
 SecondObjectFresh == act.a = "NewObject" => bits = Fresh(L)
 \* a whole-register / group write is read back in full width through the configuration view (ROTKH: all 48 bytes)
-FullWidthReadBack == (act.a = "SetValues" /\ Len(act.w) = 1 /\ act.w[1].f = 0) => View(L, bits, act.w[1].r, FALSE) = ToSet(act.w[1].v)
+FullWidthReadBack == (act.a = "SetValues" /\ Len(act.w) = 1 /\ act.w[1].f = 0 /\ act.w[1].aw = 0) => View(L, bits, act.w[1].r, FALSE) = ToSet(act.w[1].v)
+\* a value of an alternative width is read back through the view of that width, and writing back what that view shows changes nothing
+AltWidthReadBack == (act.a = "SetValues" /\ Len(act.w) = 1 /\ act.w[1].f = 0 /\ act.w[1].aw > 0) => AltView(L, bits, act.w[1].r, act.w[1].aw) = ToSet(act.w[1].v)
+AltViewsConsistent == \A g \in Groups(L) : \A k \in DOMAIN Reg(L, g).altw :
+                         SetViewAlt(L, bits, g, AltView(L, bits, g, Reg(L, g).altw[k]), Reg(L, g).altw[k]) = bits
+\* ... and leaves the sub-registers beyond that width alone
+AltWidthLocal == [][(act'.a = "SetValues" /\ act'.w[1].f = 0 /\ act'.w[1].aw > 0) =>
+                      \A k \in DOMAIN Reg(L, act'.w[1].r).subs : k > act'.w[1].aw \div SubW(L, act'.w[1].r) => bits'[Reg(L, act'.w[1].r).subs[k]] = bits[Reg(L, act'.w[1].r).subs[k]]]_vars
 FieldReadBack == (act.a = "SetValues" /\ Len(act.w) = 1 /\ act.w[1].f > 0 /\ ~(act.w[1].r = L.sizefld.r /\ act.w[1].f = L.sizefld.f)) =>
                     RawField(L, bits, act.w[1].r, act.w[1].f) = PreProc(L, act.w[1].r, act.w[1].f, ToSet(act.w[1].v))
 \* everything but SetValues / object creation leaves the current object alone
